@@ -500,6 +500,75 @@ class OngoingRaw(Contract):
                 1: LoopSpec("for scheduled_operation in reversed(machine_schedule)", inner, mod)}
 
 
+# ---------------------------------------------------------------------------
+# the three small queries about single operations
+# ---------------------------------------------------------------------------
+@register
+class DispIsScheduled(Contract):
+    """is_scheduled(operation): its position lies before the next-operation index of its job"""
+    name = "Dispatcher.is_scheduled"
+    ret = BOOL
+    pure = True
+    properties = ("C05",)
+    params = {"self": REF("Dispatcher"), "operation": REF("Operation")}
+
+    def requires(self, c):
+        D = Disp(c.h0, c["self"])
+        return reach(c.h0, c["self"]) + [("an-operation-of-the-instance", D.it.is_op(c["operation"]))]
+
+    def ensures(self, c):
+        D = Disp(c.h0, c["self"])
+        o = c["operation"]
+        return [("scheduled-iff-before-the-next-index-of-its-job", c.result == (D.it.pos(o) < D.kj(D.it.jid(o))))]
+
+
+class _TimeQuery(Contract):
+    """queries that compare a scheduled operation with current_time() (which they call: cache effects only)"""
+    properties = ("C05",)
+    params = {"self": REF("Dispatcher"), "scheduled_operation": REF("ScheduledOperation")}
+
+    def requires(self, c):
+        x = c["scheduled_operation"]
+        return reach(c.h0, c["self"]) + cache_ok(c.h0, c["self"]) + [
+            ("a-scheduled-operation", z3.And(x > 0, x < c.h0.alloc, c.h0.get("operation", x) > 0))]
+
+    def modifies(self, c):
+        fields = {f: [c["self"]] for f in cache_fields()}
+        fields["$oidx"] = "ALL"
+        return Frame(fields=fields, alloc_lists=True)
+
+    def common(self, c):
+        h, d = c.h, c["self"]
+        return [("the-current-time-is-cached", h.get(CT_HAS, d) != 0)] + cache_ok(h, d) + cache_effect(c.h0, h, d) \
+            + reach(h, d)
+
+
+@register
+class DispIsOngoing(_TimeQuery):
+    """is_ongoing(so): so has started by the value current_time() answers with"""
+    name = "Dispatcher.is_ongoing"
+    ret = BOOL
+
+    def ensures(self, c):
+        h, d, x = c.h, c["self"], c["scheduled_operation"]
+        return [("started-by-the-current-time", c.result == (h.get("start_time", x) <= h.get(CT_VAL, d)))] + self.common(c)
+
+
+@register
+class DispRemainingDuration(_TimeQuery):
+    """remaining_duration(so) = end - max(start, current_time())"""
+    name = "Dispatcher.remaining_duration"
+    ret = INT
+
+    def ensures(self, c):
+        h, d, x = c.h, c["self"], c["scheduled_operation"]
+        D = Disp(h, d)
+        t = h.get(CT_VAL, d)
+        st_ = h.get("start_time", x)
+        return [("end-minus-the-later-of-start-and-now",
+                 c.result == D.end(x) - z3.If(st_ >= t, st_, t))] + self.common(c)
+
+
 @register
 class UncompletedRaw(Contract):
     """uncompleted_operations: what is proved here is the part that matters for the cache (C05's
